@@ -90,6 +90,20 @@ func loadProgram(repo, goarch, tags string) (*Program, error) {
 		return nil, fmt.Errorf("no package of module %s found in %s", modPath, repo)
 	}
 	p.Iter = p.Pkgs[iterPath]
+	constPkgs := append([]*packages.Package{}, p.RepoPkgs...)
+	if p.Iter != nil {
+		constPkgs = append(constPkgs, p.Iter)
+	}
+	loadedPkgs = constPkgs
+	indexFuncValueVars(constPkgs)
+	guardConst = func(e ast.Expr) bool {
+		for _, pkg := range constPkgs {
+			if tv, ok := pkg.TypesInfo.Types[e]; ok {
+				return tv.Value != nil || tv.IsNil()
+			}
+		}
+		return false
+	}
 	for _, pkg := range p.Pkgs {
 		for _, f := range pkg.Syntax {
 			p.fileOf[f] = pkg
@@ -343,7 +357,98 @@ func Callee(info *types.Info, call *ast.CallExpr) *types.Func {
 	if fn, ok := obj.(*types.Func); ok {
 		return fn.Origin()
 	}
+	// a local variable that holds a function or method value and is never reassigned: consume := mu.runConsumer
+	if v, ok := obj.(*types.Var); ok {
+		if fn := funcValueVars[v]; fn != nil {
+			return fn
+		}
+	}
 	return nil
+}
+
+// funcValueVars maps a variable with exactly one assignment, whose value is a
+// declared function or a method value, to that function (set by the loader).
+var funcValueVars = map[*types.Var]*types.Func{}
+
+func indexFuncValueVars(pkgs []*packages.Package) {
+	funcValueVars = map[*types.Var]*types.Func{}
+	count := map[*types.Var]int{}
+	for _, pkg := range pkgs {
+		info := pkg.TypesInfo
+		note := func(lhs ast.Expr, rhs ast.Expr) {
+			id, ok := ast.Unparen(lhs).(*ast.Ident)
+			if !ok {
+				return
+			}
+			v, ok := info.ObjectOf(id).(*types.Var)
+			if !ok || v.IsField() {
+				return
+			}
+			count[v]++
+			if rhs == nil {
+				return
+			}
+			var obj types.Object
+			switch r := ast.Unparen(rhs).(type) {
+			case *ast.Ident:
+				obj = info.Uses[r]
+			case *ast.SelectorExpr:
+				if sel, ok := info.Selections[r]; ok {
+					if sel.Kind() == types.MethodVal {
+						obj = sel.Obj()
+					}
+				} else {
+					obj = info.Uses[r.Sel]
+				}
+			}
+			if fn, ok := obj.(*types.Func); ok {
+				funcValueVars[v] = fn.Origin()
+			}
+		}
+		for _, f := range pkg.Syntax {
+			ast.Inspect(f, func(n ast.Node) bool {
+				switch t := n.(type) {
+				case *ast.AssignStmt:
+					for i, l := range t.Lhs {
+						var r ast.Expr
+						if len(t.Rhs) == len(t.Lhs) {
+							r = t.Rhs[i]
+						}
+						note(l, r)
+					}
+				case *ast.ValueSpec:
+					for i, nm := range t.Names {
+						var r ast.Expr
+						if len(t.Values) == len(t.Names) {
+							r = t.Values[i]
+						}
+						if r != nil {
+							note(nm, r)
+						}
+					}
+				case *ast.IncDecStmt:
+					note(t.X, nil)
+				case *ast.RangeStmt:
+					if t.Key != nil {
+						note(t.Key, nil)
+					}
+					if t.Value != nil {
+						note(t.Value, nil)
+					}
+				case *ast.UnaryExpr:
+					if t.Op == token.AND {
+						note(t.X, nil) // address taken: may be written through the pointer
+					}
+				}
+				return true
+			})
+		}
+	}
+	for v := range funcValueVars {
+		if count[v] != 1 {
+			delete(funcValueVars, v)
+		}
+	}
 }
 
 // isCallTo reports whether call is a static call of fn.
